@@ -59,7 +59,7 @@ def _admission(ctx):
     nz = N.Normaliser(N.VecHelpers(index.module(K.SCHED)))
     server = index.get_class(K.SCHED, 'Server')
     node_cls = index.get_class(K.SCHED, 'Node')
-    put = K.one([f for f in server.methods.values() if any(
+    put = K.one([f for f in server.live_methods() if any(
         isinstance(s, ast.Assign) and any(
             isinstance(t, ast.Subscript) and N.txt(t.value) == 'self.apps'
             for t in s.targets) for s in K.walk_no_nested(f.node))],
@@ -155,7 +155,7 @@ def _admission(ctx):
 
 def _bypass(ctx, nz, server):
     index = ctx.index
-    restores = [f for f in server.methods.values() if any(
+    restores = [f for f in server.live_methods() if any(
         isinstance(s, ast.Assign) and any(
             N.txt(t).endswith('.lease') for t in s.targets)
         for s in K.walk_no_nested(f.node))]
@@ -166,7 +166,7 @@ def _bypass(ctx, nz, server):
     writers = []
     callers = []
     for mod in mods:
-        for func in mod.all_functions():
+        for func in mod.live_functions():
             for sub in K.walk_no_nested(func.node):
                 if isinstance(sub, (ast.Assign, ast.AugAssign)):
                     tgts = sub.targets if isinstance(sub, ast.Assign) \
@@ -435,7 +435,7 @@ def _unknown_traits(ctx):
     index = ctx.index
     loader = index.module(K.LOADER)
     sites = []
-    for func in loader.all_functions():
+    for func in loader.live_functions():
         for sub in K.walk_no_nested(func.node):
             if isinstance(sub, ast.Call) and \
                     dotted_text(sub.func) == 'traits.encode':
